@@ -25,7 +25,7 @@ def hasBit (b mask : Nat) : Bool := (b / mask) % 2 == 1
 inductive Mode | full | headerOnly | fileIdOnly | crcOnly
 deriving DecidableEq, Repr, Inhabited
 
-abbrev DProg := Prog Outcome
+abbrev DP := DProg Outcome
 
 def fail (st : DecSt) (c : ErrClass) : Outcome := { err := some c, st := st }
 def panicOut (st : DecSt) : Outcome := { err := none, panic := true, st := st }
@@ -38,7 +38,7 @@ def bufErr : RdStop → ErrClass
   | .fault => .fault
 
 /-- `readFull` / `readByte` / `skipByte`: `k` bytes of the data area -/
-def rd (st : DecSt) (k : Nat) (cont : Bytes → DecSt → DProg) : DProg :=
+def rd (st : DecSt) (k : Nat) (cont : Bytes → DecSt → DP) : DP :=
   .readBuf k (fun e => fail st (bufErr e))
     (fun bs => cont bs { st with n := st.n + k, crc := Crc.update st.crc bs })
 
@@ -280,7 +280,7 @@ def DecSt.setTs (st : DecSt) (ts : TsRef) : DecSt := { st with timestamp := ts.t
 
 /-- the field loop of `parseDataFields` -/
 def parseFields (P : Profile) (dm : DefMsg) (known : Bool) :
-    List FieldDef → Option Msg → DecSt → (Option Msg → DecSt → DProg) → DProg
+    List FieldDef → Option Msg → DecSt → (Option Msg → DecSt → DP) → DP
   | [], m, st, cont => cont m st
   | fd :: fds, m, st, cont =>
     let st :=
@@ -295,14 +295,15 @@ def parseFields (P : Profile) (dm : DefMsg) (known : Bool) :
       | .ok m ts => parseFields P dm known fds m (st.setTs ts) cont
 
 /-- developer fields are read and dropped -/
-def skipDev : List DevDesc → DecSt → (DecSt → DProg) → DProg
+def skipDev : List DevDesc → DecSt → (DecSt → DP) → DP
   | [], st, cont => cont st
   | d :: ds, st, cont => rd st d.size fun _ st => skipDev ds st cont
 
 /-- `parseDataMessage` + `parseDataFields` -/
 def parseData (P : Profile) (hb : Nat) (compressed : Bool) (st : DecSt)
-    (cont : Option Msg → DecSt → DProg) : DProg :=
+    (cont : Option Msg → DecSt → DP) : DP :=
   let localT := if compressed then (hb / 32) % 4 else hb % 16
+  let useTs : Bool := compressed && decide (st.timestamp ≠ 0)   -- a compressed header needs a reference
   match st.defs.getD localT none with
   | none => .done (fail st .other)
   | some dm =>
@@ -314,10 +315,10 @@ def parseData (P : Profile) (hb : Nat) (compressed : Bool) (st : DecSt)
     else
       let m : Option Msg := if known then ctor else none
       let st := if !known then { st with unkM := bump dm.global st.unkM } else st
-      let body (m : Option Msg) (st : DecSt) : DProg :=
+      let body (m : Option Msg) (st : DecSt) : DP :=
         parseFields P dm known dm.fields m st fun m st =>
           skipDev dm.dev st fun st => cont m st
-      if !compressed ∨ st.timestamp = 0 then body m st
+      if !useTs then body m st
       else
         let off := hb % 32
         let ts : Nat := tsAdvance st.timestamp st.lastOff off
@@ -347,7 +348,7 @@ def parseDevDescs (bs : Bytes) : (n : Nat) → List DevDesc
     | _ => []
 
 /-- `parseDefinitionMessage` -/
-def parseDefinition (P : Profile) (hb : Nat) (st : DecSt) (cont : DefMsg → DecSt → DProg) : DProg :=
+def parseDefinition (P : Profile) (hb : Nat) (st : DecSt) (cont : DefMsg → DecSt → DP) : DP :=
   let localT := hb % 16
   rd st 1 fun _ st =>                                    -- reserved
   rd st 1 fun a st =>
@@ -385,7 +386,7 @@ def addMsg (P : Profile) (m : Option Msg) (st : DecSt) : Option DecSt :=
 
 /-- `decodeFileData` -/
 def decodeFileData (P : Profile) (limit : Nat) :
-    (fuel : Nat) → DecSt → (DecSt → DProg) → DProg
+    (fuel : Nat) → DecSt → (DecSt → DP) → DP
   | 0, st, cont => cont st
   | fuel + 1, st, cont =>
     if st.n < limit then
@@ -407,7 +408,7 @@ def decodeFileData (P : Profile) (limit : Nat) :
     else cont st
 
 /-- `parseFileIdMsg` -/
-def parseFileIdMsg (P : Profile) (st : DecSt) (cont : DecSt → DProg) : DProg :=
+def parseFileIdMsg (P : Profile) (st : DecSt) (cont : DecSt → DP) : DP :=
   rd st 1 fun hbs st =>
     let hb := (hbs.headD 0).toNat
     if !hasBit hb mesgDefinitionMask then .done (fail st .other)
@@ -427,7 +428,7 @@ def parseFileIdMsg (P : Profile) (st : DecSt) (cont : DecSt → DProg) : DProg :
                 | some st => cont st
 
 /-- `checkCRC` -/
-def checkCRC (st : DecSt) : DProg :=
+def checkCRC (st : DecSt) : TProg Outcome :=
   .readDirect 2
     (fun _ stop => fail st (match stop with | .eof => .ueof | .fault => .fault))
     (fun bs =>
@@ -436,7 +437,7 @@ def checkCRC (st : DecSt) : DProg :=
       .done (if crc = 0#16 then okOut st else fail st .integrity))
 
 /-- `decodeHeader` -/
-def decodeHeader (st : DecSt) (cont : DecSt → DProg) : DProg :=
+def decodeHeader (st : DecSt) (cont : DecSt → HProg Outcome) : HProg Outcome :=
   .readDirect 1
     (fun _ stop => match stop with
       | .eof => fail { st with cleanEOF := true } .ioerr     -- errReadSize: no byte of a header
@@ -475,18 +476,18 @@ def zeroFileId (P : Profile) : Msg :=
   | none => ⟨mnFileId, []⟩
 
 /-- `(*decoder).decode` -/
-def decodeProg (P : Profile) (mode : Mode) (g : Globals) : DProg :=
+def decodeProg (P : Profile) (mode : Mode) (g : Globals) : HProg Outcome :=
   decodeHeader (DecSt.init g) fun st =>
     let st := { st with file := some { hdr := st.hdr, fileId := zeroFileId P } }
-    .setLimit st.hdr.dataSize <|
     match mode with
     | .headerOnly => .done (okOut st)
     | .crcOnly =>
-      .copyN st.hdr.dataSize
+      .copyAll st.hdr.dataSize
         (fun stop => fail st (match stop with | .eof => .eof | .fault => .fault))
         (fun bs => checkCRC { st with crc := Crc.update st.crc bs })
     | _ =>
       let st := { st with unkInit := true }
+      .data st.hdr.dataSize <|
       parseFileIdMsg P st fun st =>
         if mode = .fileIdOnly then .done (okOut st)
         else match st.file with
@@ -497,8 +498,8 @@ def decodeProg (P : Profile) (mode : Mode) (g : Globals) : DProg :=
             | .ok f' =>
               let st := { st with file := some f' }
               decodeFileData P st.hdr.dataSize (st.hdr.dataSize + 1) st fun st =>
-                if st.n ≠ st.hdr.dataSize then .done (panicOut st)   -- pre-CRC invariant check
-                else checkCRC st
+                -- pre-CRC invariant check (`n == limit`, else panic), then the trailer
+                .endData (panicOut st) (checkCRC st)
 
 /-- sort an association list by key (insertion sort; keys are distinct) -/
 def insertBy {α} (lt : α → α → Bool) (x : α) : List α → List α
@@ -520,17 +521,15 @@ def finalize (opts : Opts) (o : Outcome) : Outcome :=
       if opts.unkMsgs then { f with unkM := some um } else f
     { o with st := { o.st with file := f } }
 
-def BufSt.ofReader (r : Reader) : BufSt := { r := r, pending := [], n := 0, limit := 0 }
-
 /-- one call of `d.decode(r, …)` on a fresh decoder -/
 def decode (P : Profile) (opts : Opts) (mode : Mode) (g : Globals) (r : Reader) : Outcome × Reader :=
-  let (o, b) := runBuffered (decodeProg P mode g) (BufSt.ofReader r)
-  (finalize opts o, b.r)
+  let (o, r') := runBuffered (decodeProg P mode g) r
+  (finalize opts o, r')
 
 /-- the same call under the specification interpreter -/
 def decodeSpec (P : Profile) (opts : Opts) (mode : Mode) (g : Globals) (data : Bytes) (stop : Stop) :
     Outcome × SpecSt :=
-  let (o, s) := runSpec (decodeProg P mode g) { rest := data, stop := stop, n := 0, limit := 0, taken := 0 }
+  let (o, s) := runSpec (decodeProg P mode g) { rest := data, stop := stop, taken := 0 }
   (finalize opts o, s)
 
 structure ChainRes where
